@@ -704,9 +704,10 @@ func compileAssignStmtLeft(context *funcContext, stmt *ast.AssignStmt) (int, []*
 			case ecUpvalue:
 				context.Upvalues.RegisterUnique(st.Value)
 			case ecLocal:
-				// only the last target may be written while the right-hand side is evaluated;
-				// earlier ones must wait until every expression has been evaluated
-				if islast {
+				// only the last target may be written while the right-hand side is evaluated (and
+				// only when no surplus expression follows its value); earlier ones must wait until
+				// every expression has been evaluated
+				if islast && len(stmt.Rhs) <= len(stmt.Lhs) {
 					ec.reg = context.FindLocalVar(st.Value)
 				}
 			}
